@@ -6,6 +6,7 @@ import (
 	"sync/atomic"
 	"time"
 
+	"github.com/formancehq/ledger/internal/verifhook"
 	"github.com/formancehq/stack/libs/go-libs/collectionutils"
 	"github.com/formancehq/stack/libs/go-libs/logging"
 	"github.com/pkg/errors"
@@ -95,6 +96,7 @@ type DefaultLocker struct {
 }
 
 func (defaultLocker *DefaultLocker) Lock(ctx context.Context, accounts Accounts) (Unlock, error) {
+	verifhook.Yield(ctx, "lock.enter")
 	defaultLocker.mu.Lock()
 
 	logger := logging.FromContext(ctx).WithFields(map[string]any{
@@ -125,6 +127,7 @@ func (defaultLocker *DefaultLocker) Lock(ctx context.Context, accounts Accounts)
 	}
 
 	releaseIntent := func(ctx context.Context) {
+		verifhook.Yield(ctx, "lock.release")
 		defaultLocker.mu.Lock()
 		defer defaultLocker.mu.Unlock()
 
@@ -147,9 +150,11 @@ func (defaultLocker *DefaultLocker) Lock(ctx context.Context, accounts Accounts)
 
 	select {
 	case <-ctx.Done():
+		verifhook.Yield(ctx, "lock.cancelled")
 		defaultLocker.intents.RemoveValue(intent)
 		return nil, errors.Wrapf(ctx.Err(), "locking accounts: %s as read, and %s as write", accounts.Read, accounts.Write)
 	case <-intent.acquired:
+		verifhook.Yield(ctx, "lock.granted")
 		return releaseIntent, nil
 	}
 }
